@@ -78,6 +78,7 @@ func main() {
 	repo := flag.String("repo", "/repo", "go-nfsd working tree")
 	journal := flag.String("journal", "", "go-journal module dir")
 	vrtsrc := flag.String("vrt", "", "vrt runtime sources")
+	jextra := flag.String("jextra", "", "extra files to add to the go-journal copy")
 	out := flag.String("out", "", "output dir")
 	flag.Parse()
 	if *journal == "" || *vrtsrc == "" || *out == "" {
@@ -90,6 +91,9 @@ func main() {
 		return strings.HasSuffix(rel, "_test.go") || rel == "jrnl_replication" || rel == "txn"
 	})
 	copyTree(*vrtsrc, filepath.Join(jdst, "vrt"), func(rel string, d fs.DirEntry) bool { return false })
+	if *jextra != "" {
+		copyTree(*jextra, jdst, func(rel string, d fs.DirEntry) bool { return false })
+	}
 	copyTree(*repo, ndst, func(rel string, d fs.DirEntry) bool {
 		if d.IsDir() {
 			switch rel {
